@@ -24,6 +24,8 @@ import SlimProps.BridgeSem.LeafAccess
 import SlimProps.BridgeSem.MostLoops
 import SlimProps.BridgeSem.LegacyLeaf
 import SlimProps.BridgeSem.LegacyChildren
+import SlimProps.BridgeSem.LegacyPrefix
+import SlimProps.BridgeSem.LegacyDispatch
 /-
   SlimProps.BridgeSem — tie 1, semantic part: the small pure functions of the Go source, translated
   to Lean on every check run (lean/Generated/Funcs.lean, written by harness/cmd/extract/translate.go
@@ -110,5 +112,13 @@ import SlimProps.BridgeSem.LegacyChildren
     LegacyChildren  (`namespace Generated.WL`: package trie checked against the source of package array)
                     bmhas_sem, U16_Get_sem ((*array.U16).Get = Legacy.u16Get), getStepBefore000510_sem
                     (= 4 × Legacy.getStep), getBM16Child_sem (= Legacy.getBM16Child, both children encodings)
+    LegacyPrefix    before000512InnerPrefixTobitstr_sem (= Legacy.innerPrefixTobitstr, loop and panics included;
+                    the slice `old := ips.Bytes[from:to]` is a view, `copy(old, …)` updates the bytes in place),
+                    loop_sem, go_step, convertOne_go (the per-prefix step = Legacy.convertOne), bitstrNew_sem,
+                    bitstrNew_neg, trailingZeros8_sem (bitstr.New, bits.TrailingZeros8)
+    LegacyDispatch  (`namespace Generated.WP`: DECISION SKELETONS — the loader steps of `Unmarshal` /
+                    `before000510` as a function of `vers.Check` / `vers.IsCompatible`) Unmarshal_plan_sem,
+                    Unmarshal_plan_incompatible, before000510_plan_sem, unmarshalMsg_current / _v0510 / _legacy3
+                    (= Marshal.unmarshalDispatch / Legacy.unmarshalMsg: which loader runs, in which order)
 -/
 
